@@ -30,6 +30,8 @@ CLAIMED = {
          "Not decided: merge(initial, incrementals) == data(q without @defer) (relational), the tree-wide counting identity outstanding == |announced minus completed| under concurrent branches (paper lemma; assumed as protocol invariant where the counter arithmetic needs it), completeness of liveChildDescriptors, termination, normalization and planning of @defer. Side findings outside the decided part (recorded in DESIGN.md): an introspection field inside @defer nulls the response; a nested @defer under a mutation root field executes the mutation twice."),
  "C11": ("Deductive proof on both single flights (inbound requests and subgraph requests): eligibility (only queries, disable flags respected), the de-duplication key as a term over all its components (request id, variables hash, headers hash; data source id, input, headers hash) checked where the key reaches sync.Map.LoadOrStore, follower buffers (inbound: a private copy; subgraph: exactly the leader's published bytes or the leader's error), a follower sends nothing, and the close-once discipline as a linear ghost permission: created at the non-shared LoadOrStore, required and consumed at close(), never held by a follower, consumed on every leader path of ArenaResolveGraphQLResponse and loadByContext (defect F7 — double close after a late follower — found by the follower postcondition of GetOrCreate and fixed).",
          "Not decided: liveness/no goroutine blocked forever as a history property, equality with the un-deduplicated bytes (C01-level), lifetime of the shared buffer, panics inside the leader's work (a panicking leader never finishes), hash collisions. Interleavings are not explored."),
+ "C19": ("Deductive proof of per-message step contracts of the graphql-transport-ws handler, valid for every pre-state and therefore for every client message sequence: no operation is handed to the engine before a successful connection_init; subscribe before init closes with 4401 and starts nothing; a second init closes with 4429 without a second ack; a rejected init closes with 4401 and leaves the state unchanged; unknown message types and JSON syntax errors close with 4400; the init time-out action closes with 4408; a duplicate operation id closes with 4409; only connection_init changes the initialised flag; ping/pong/complete never close. Event to message mapping of both protocols (data -> one next/data, error -> one error, completed -> one complete, result -> next/data then complete, nothing for other events, every message carries the event's id), graphql-ws message switch (only start starts, only stop stops), and in the engine: no executor is started for a duplicate id, a non-subscription operation emits exactly one terminal event, events carry the operation's id. Known finding F14: startSubscription keeps executing and emitting after the terminal error of an operation.",
+         "Not decided: interleavings of the engine goroutine with client-initiated stop, heartbeat/time-out timing, the transport client, the read loop ending on disconnect. Composition of step contracts into a trace property is induction on the message sequence (paper argument)."),
  "C08": ("Lock discipline and phase order proved on the loader: preparePhase and mergePhase hold the data lock for all accesses to the shared tree (mutex typestate obligations at every call), the lock is released on every path, loadPhase and the cache flush run unlocked, merge happens after load in program order; Loader.dataBuffer is a stable field (package-wide SSA scan).",
          "Not decided: schedule tree shape (validateSchedule contracts pending), independence from completion order."),
 }
